@@ -430,6 +430,9 @@ func (mr *msgReader) setFrame(h header) {
 func (mr *msgReader) Read(p []byte) (n int, err error) {
 	err = mr.c.readMu.lock(mr.ctx)
 	if err != nil {
+		// The rest of the message will never be read, so no later message can be
+		// read either: like every other failed read this closes the connection.
+		mr.c.close()
 		return 0, fmt.Errorf("failed to read: %w", err)
 	}
 	defer mr.c.readMu.unlock()
